@@ -62,6 +62,8 @@ def _real_env():
         def __sub__(self, o): return self._op(o, lambda a, b: a - b)
         def __rsub__(self, o): return SReal((SReal.lift(o) - self.e) * (1 + R.delta()))
         def __add__(self, o): return self._op(o, lambda a, b: a + b)
+        def __abs__(self): return SReal(z3.If(self.e >= 0, self.e, -self.e))
+        def __neg__(self): return SReal(-self.e)
         def __gt__(self, o): return SCond(self.e > SReal.lift(o))
         def __ge__(self, o): return SCond(self.e >= SReal.lift(o))
         def __lt__(self, o): return SCond(self.e < SReal.lift(o))
@@ -278,6 +280,19 @@ def stamp_texts(ctx, case):
         ctx.check('first message is shown at 0', got[0].timestamp == 0)
         ctx.check('shown time of `%s` after `%s` is (this - first) seconds' % (line(this)[:16], line(first)[:16]), abs(got[1].timestamp - (this - first) / 1e6) <= 1e-9)
         ctx.check('shown time of the third line `%s` is (third - first) seconds' % line(third)[:16], abs(got[2].timestamp - (third - first) / 1e6) <= 1e-9)
+        # and what is DISPLAYED for it: the leading number of the message line (sign included), to the last digit shown
+        from core import util
+        util.color_output = False
+        for m, u in zip(got, (first, this, third)):
+            o = RecStream()
+            m.show(Output(False, True, o, RecStream()))
+            head = o.items[0].split(':')[0].split()[0] if o.items else ''
+            try:
+                shown_value = float(head)
+            except ValueError:
+                shown_value = None
+            ctx.check('the number displayed in front of the message is (log time - first log time) seconds, sign included, within the last digit shown (%s vs %.6f)' % (head, (u - first) / 1e6),
+                      shown_value is not None and abs(shown_value - (u - first) / 1e6) <= 0.000051)
 
 
 def last_shown(ctx, case):
@@ -288,6 +303,8 @@ def last_shown(ctx, case):
     try:
         F = ctl.SymLeaf(ctx, 'filter')
         w.ctl.display_matcher = F
+        # a breakpoint matcher may be set as well: its `Stopped at` notices do not interrupt the sequence of shown messages
+        w.ctl.stop_matcher = ctl.SymLeaf(ctx, 'break')
         t = 10.0
         n0 = len(w.out.items)
         events = []     # ('live', msg) / ('list',)
